@@ -417,6 +417,7 @@ type FuncContract struct {
 	ErrorsPropagated bool // every non-nil error returned is the (possibly wrapped) failure of a call made on that path
 	Constructor bool // runs in the single-threaded configuration phase (Provision): may initialise immutable fields
 	NoGlobals bool   // the function must not read mutable package-level variables (state shared between instances)
+	LastCallAtomic bool // (with LastCall) trusted: attempts of the parameter that fail leave the ghost state as it was
 	LastCall  string // higher-order summary: the function's outcome is that of the last call of this func-typed parameter
 	Notes     []string
 	Src       string
@@ -748,6 +749,9 @@ func (cs *Contracts) ParseContractFile(path string, pkgName string, isSpec bool)
 			curF.AllocBound = mkClause("allocbound", "", strings.TrimSpace(s[11:]), src)
 		case strings.HasPrefix(s, "lastcall "):
 			curF.LastCall = strings.TrimSpace(s[9:])
+			if f := strings.Fields(curF.LastCall); len(f) == 2 && f[1] == "failures_are_atomic" {
+				curF.LastCall, curF.LastCallAtomic = f[0], true
+			}
 		case strings.HasPrefix(s, "ghost "):
 			// ghost <name> <smt sort>
 			f := strings.SplitN(strings.TrimSpace(s[6:]), " ", 2)
